@@ -68,7 +68,7 @@ def h_gate_str(v: int):
 
 
 # ------------------------------------------------------------------------------------------------ E4
-def _mk_v1(root, name, wsdir, version, cache, history, njobs, collide):
+def _mk_v1(root, name, wsdir, version, cache, history, njobs, collide, mkws=True):
     os.makedirs(root)
     lines = []
     def rc(v):   # configobj quoting: values with a comma or a '#' must be written in quotes (as signac 1.x / configobj wrote them)
@@ -84,7 +84,8 @@ def _mk_v1(root, name, wsdir, version, cache, history, njobs, collide):
     with open(os.path.join(root, "signac.rc"), "w") as f:
         f.write("\n".join(lines) + "\n")
     ws = os.path.join(root, wsdir)
-    os.makedirs(ws)
+    if mkws or njobs:
+        os.makedirs(ws)      # signac 1.x created the workspace directory with the first job: a project without jobs may not have one
     content = {}
     for i in range(njobs):
         sp = {"a": i, "n": {"b": [i, "x"]}}
@@ -128,17 +129,17 @@ def _observe_project(root):
 
 
 NAMES = [None, "proj", "my proj-1.0!", "sims, run #2"]
-WSDIRS = ["workspace", "ws", "a/ws", "w,s"]
+WSDIRS = ["workspace", "ws", "a/ws", "w,s", ".workspace", "../workspace"]   # the last two: names that differ from the default only by leading dots / a parent step
 
 
-def _migrate_case(name, wsd, version, cache, history, njobs, collide):
+def _migrate_case(name, wsd, version, cache, history, njobs, collide, mkws=True):
     from signac.migration import apply_migrations
     problems = []
     with SL.Scratch() as sc:
         root = os.path.join(sc.root, "proj")
         wsdir = WSDIRS[wsd]
         collide = collide and wsdir != "workspace"
-        content = _mk_v1(root, NAMES[name], wsdir, version, cache, history, njobs, collide)
+        content = _mk_v1(root, NAMES[name], wsdir, version, cache, history, njobs, collide, mkws)
         err = io.StringIO()
         # before migration every entry point refuses the project and changes nothing
         before = SL.snap(root)
@@ -210,13 +211,15 @@ def _migrate_case(name, wsd, version, cache, history, njobs, collide):
     return problems
 
 
-def h_migrate(name: int, wsd: int, ver: int, cache: bool, history: bool, njobs: int, collide: bool):
-    assert 0 <= name <= 3 and 0 <= wsd <= 3 and 0 <= ver <= 2 and 0 <= njobs <= 2 and part_ok(wsd * 3 + ver)
+def h_migrate(name: int, wsd: int, ver: int, cache: bool, history: bool, njobs: int, collide: bool, mkws: bool):
+    assert 0 <= name <= 3 and 0 <= wsd <= 5 and 0 <= ver <= 2 and 0 <= njobs <= 2 and part_ok(wsd * 3 + ver)
     assert (wsd != 0) or not collide
+    assert mkws or (njobs == 0 and not collide)
+    assert wsd <= 3 or (name <= 1 and not cache and not history)
     fresh_path()
-    name, wsd, ver, cache, history, njobs, collide = ci(name, 0, 3), ci(wsd, 0, 3), pick([None, 0, 1], ver), cb(cache), cb(history), ci(njobs, 0, 2), cb(collide)
+    name, wsd, ver, cache, history, njobs, collide, mkws = ci(name, 0, 3), ci(wsd, 0, 5), pick([None, 0, 1], ver), cb(cache), cb(history), ci(njobs, 0, 2), cb(collide), cb(mkws)
     with nt():
-        problems = _migrate_case(name, wsd, ver, cache, history, njobs, collide)
+        problems = _migrate_case(name, wsd, ver, cache, history, njobs, collide, mkws)
     reached()
     assert not problems
 
@@ -234,7 +237,8 @@ def _refuse_case(layout, ver, entry):
             pr.update_cache()
             cfg = os.path.join(root, ".signac", "config")
             with open(cfg, "w") as f:
-                f.write(f"schema_version = {ver}\n")
+                # ver None: a configuration that declares NO schema version (only some other setting)
+                f.write(f"schema_version = {ver}\n" if ver is not None else "statepoint_cache_miss_warning_threshold = 100\n")
         else:
             _mk_v1(root, "proj", "workspace", ver, True, False, 1, False)
         sub = os.path.join(root, "workspace")
@@ -257,7 +261,7 @@ def _refuse_case(layout, ver, entry):
 
 
 def h_refuse(layout: int, ver: int, entry: int):
-    assert 0 <= layout <= 1 and 0 <= ver <= 5 and 0 <= entry <= 3 and not (layout == 0 and ver in (4, 5))
+    assert 0 <= layout <= 1 and 0 <= ver <= 5 and 0 <= entry <= 3 and not (layout == 0 and ver == 5)
     fresh_path()
     layout, entry = ci(layout, 0, 1), ci(entry, 0, 3)
     v = pick([0, 1, 3, 10, None, 2], ver)
